@@ -43,6 +43,8 @@ func genTemplateN(c *Ctx, np int) tmpl {
 		pool = []string{"m", "mm", "x", "f"}
 	case k < 55: // parameters named like built-in / extension functions
 		pool = []string{"len", "str", "keys", "first"}
+	case k < 65: // parameters named like extension functions (looked up in State.Extensions, not in the environment)
+		pool = []string{"min", "max", "type", "round"}
 	}
 	ps := pool[:min(np, 4)]
 	u := func() string {
@@ -72,6 +74,9 @@ func genTemplateN(c *Ctx, np int) tmpl {
 		func() string { p := u(); return "{" + p + ": print(1), " + p + ": print(2)}" },
 		func() string { p := u(); return "[{" + p + ": print(1), " + p + ": print(2), " + p + ": print(3)}]" },
 		func() string { return "{" + u() + ": " + u() + ", " + u() + ": " + u() + "}" },
+		// an unquote in field position, after a dot
+		func() string { return u() + "." + u() },
+		func() string { return "r => r." + u() },
 	}
 	return tmpl{ps, forms[c.R.Intn(len(forms))]()}
 }
